@@ -129,12 +129,25 @@ func (n *Node) Execute(ctx context.Context) error {
 	if err != nil {
 		return err
 	}
-	n.SetError(cmd.Run())
+	// Drain the output pipe while the command is running. Otherwise a step
+	// that writes more than the pipe buffer blocks forever.
+	var (
+		buf      bytes.Buffer
+		captured chan struct{}
+	)
 	if n.outputReader != nil && n.data.Step.Output != "" {
+		captured = make(chan struct{})
+		reader := n.outputReader
+		go func() {
+			defer close(captured)
+			// TODO: Error handling
+			_, _ = io.Copy(&buf, reader)
+		}()
+	}
+	n.SetError(cmd.Run())
+	if captured != nil {
 		util.LogErr("close pipe writer", n.outputWriter.Close())
-		var buf bytes.Buffer
-		// TODO: Error handling
-		_, _ = io.Copy(&buf, n.outputReader)
+		<-captured
 		ret := strings.TrimSpace(buf.String())
 		_ = os.Setenv(n.data.Step.Output, ret)
 		n.data.Step.OutputVariables.Store(
